@@ -90,4 +90,21 @@ EXTRA = dict(assumptions=["jnp.interp's contract (piecewise linear through the k
 
 
 def check(tier, seed):
-    return check_property("C11", UNITS, tier, seed, extra=EXTRA)
+    from pyvc import bounded
+    n = 16 if tier == "quick" else 120
+    res = bounded.run_native("c11_interp.py", ["--n", str(n), "--seed", str(seed)])
+    lines, ev, err = bounded.report("C11", "linear interpolation on scalar / vector / matrix payloads", res, "c11_interp.py")
+    extra = dict(EXTRA)
+    extra["bounded"] = [dict(ev, bound=f"{n} random cases (both linear variants, windows 1..3, rates 4..16 Hz, delays across [min, max], payload shapes (), (1,), (3,), (2,2), float32): "
+                                       "the real apply_delay against a float64 piecewise-linear reference, steady state (all window entries real)")]
+    extra["assumptions"] = list(EXTRA["assumptions"]) + ["PyVC analyses a single scalar payload leaf; multi-element payloads (the vmapped path) are covered by the bounded stand-in only",
+                                                          "float32 effects of the -1e9 sentinel of linear_real_only while the window still holds dummy entries are not covered (machine arithmetic)"]
+    code = check_property("C11", UNITS, tier, seed, extra=extra)
+    if lines:
+        for l in lines:
+            print(l)
+        return 1
+    if err and code == 0:
+        print(f"ERROR property=C11 bounded stand-in failed to run: {err[-300:]}")
+        return 3
+    return code
